@@ -300,11 +300,12 @@ func (cf *compactFlusher) StreamWriter() (table.StreamWriter, error) {
 	if err := cf.beforeAdd(); err != nil {
 		return nil, err
 	}
-	sw := cf.compactJob.state.builder.StreamWriter()
+	builder := cf.compactJob.state.builder
 	// hooks stream writer with compaction processing checkers
 	cf.streamWriter = &compactFlusherStreamWriter{
 		compactFlusher: cf,
-		StreamWriter:   sw,
+		StreamWriter:   builder.StreamWriter(),
+		builder:        builder,
 	}
 	return cf.streamWriter, nil
 }
@@ -364,12 +365,40 @@ func (cf *compactFlusher) Release() {
 
 // compactFlusherStreamWriter wraps stream writer with write check
 type compactFlusherStreamWriter struct {
-	compactFlusher *compactFlusher
-	table.StreamWriter
+	compactFlusher     *compactFlusher
+	table.StreamWriter               // stream writer of current store builder
+	builder            table.Builder // store builder which current stream writer belongs to
+	err                error         // failure of opening output file
+}
+
+// Prepare prepares the writer with specified key,
+// NOTE: merger gets the stream writer only once, if previous output file is closed(big enough) after committing,
+// need open new output file and write the data into it.
+func (cfsw *compactFlusherStreamWriter) Prepare(key uint32) {
+	cfsw.err = cfsw.compactFlusher.beforeAdd()
+	if cfsw.err != nil {
+		return
+	}
+	if builder := cfsw.compactFlusher.compactJob.state.builder; builder != cfsw.builder {
+		cfsw.builder = builder
+		cfsw.StreamWriter = builder.StreamWriter()
+	}
+	cfsw.StreamWriter.Prepare(key)
+}
+
+// Write writes buffer into current output file.
+func (cfsw *compactFlusherStreamWriter) Write(p []byte) (n int, err error) {
+	if cfsw.err != nil {
+		return 0, cfsw.err
+	}
+	return cfsw.StreamWriter.Write(p)
 }
 
 // Commit checks if build's file if it is big enough
 func (cfsw *compactFlusherStreamWriter) Commit() error {
+	if cfsw.err != nil {
+		return cfsw.err
+	}
 	// table's StreamWriter Commit won't raise error
 	_ = cfsw.StreamWriter.Commit()
 	return cfsw.compactFlusher.afterAdd()
